@@ -56,7 +56,7 @@ def offers : KName → Rep K → Bool
     | none => false
 
 /-- kernel `k` of representation `rep` applied to `alpha, x, y` (returns the new `y`) -/
-def repKernel (conj : K → K) : KName → Rep K → K → (Nat → K) → (Nat → K) → Nat → K
+def repKernel (conj : K → K) : KName → Rep K → K → (Nat → K) → Vec K → Vec K
   | k, .full m, al, x, y => kernelSem (Gen.denseSig k) conj m.rows m.cols m.e al x y
   | k, .diag n d, al, x, y => diagKernelSem (Gen.diagSig k) conj n d al x y
   | k, .scalar a, al, x, y => kernelSem (Gen.denseSig k) conj 1 1 (fun _ _ => a) al x y
@@ -64,6 +64,9 @@ def repKernel (conj : K → K) : KName → Rep K → K → (Nat → K) → (Nat 
     match Gen.wrapFwd k with
     | some k' => repKernel conj k' r al x y
     | none => y
+
+/-- a freshly constructed (value-initialised) result vector of size `n` -/
+def zeroVec (n : Nat) : Vec K := ⟨n, fun _ => 0⟩
 
 /-! ### matrix-matrix products -/
 
@@ -80,15 +83,15 @@ def matmul11 (A B : Mat K) : Mat K := ⟨1, B.cols, fun _ j => A.e 0 0 * B.e 0 j
 /-- fmatrix.hh `FieldMatrix * OtherMatrix`: row j of the result is `B.mtv(A[j])`
 (kernel name read from the source: `Gen.fmMulOther` / `Gen.fm11MulOther`) -/
 def mulFmOther (conj : K → K) (k : KName) (A : Mat K) (B : Rep K) : Mat K :=
-  ⟨A.rows, B.cols, fun j => repKernel conj k B 0 (A.e j) (fun _ => 0)⟩
+  ⟨A.rows, B.cols, fun j => (repKernel conj k B 0 (A.e j) (zeroVec B.cols)).get⟩
 
 /-- fmatrix.hh `OtherMatrix * FieldMatrix`: column j of the result is `A.mv(column j of B)` -/
 def mulOtherFm (conj : K → K) (k : KName) (A : Rep K) (B : Mat K) : Mat K :=
-  ⟨A.rows, B.cols, fun i j => repKernel conj k A 0 (fun l => B.e l j) (fun _ => 0) i⟩
+  ⟨A.rows, B.cols, fun i j => (repKernel conj k A 0 (fun l => B.e l j) (zeroVec A.rows)).get i⟩
 
 /-- transpose.hh `A * transposedView(B)`: row j of the result is `B.mv(A[j])`; `B` is the wrapped matrix -/
 def mulTransposedView (conj : K → K) (k : KName) (A : Mat K) (B : Rep K) : Mat K :=
-  ⟨A.rows, B.rows, fun j => repKernel conj k B 0 (A.e j) (fun _ => 0)⟩
+  ⟨A.rows, B.rows, fun j => (repKernel conj k B 0 (A.e j) (zeroVec B.rows)).get⟩
 
 /-- diagonalmatrix.hh `operator*(DiagonalMatrix, DiagonalMatrix)` -/
 def mulDiag (d e : Nat → K) : Nat → K := fun i => d i * e i
